@@ -3,6 +3,7 @@ import Rv.Props.C09
 import Rv.Props.SrcRange
 import Rv.Props.SrcRangeParse
 import Rv.Props.SrcIfRange
+import Rv.Props.SrcRangeString
 #print axioms Rv.Props.C07.parse_total
 #print axioms Rv.Props.C07.parse_in_int64
 #print axioms Rv.Props.C07.slice_inside
@@ -37,3 +38,11 @@ import Rv.Props.SrcIfRange
 #print axioms Rv.Props.SrcIfRange.ifRangeDecision_total
 #print axioms Rv.Props.SrcIfRange.ifRangeDecision_core
 #print axioms Rv.Props.SrcIfRange.ifRangeDecision_eq
+#print axioms Rv.Props.SrcRangeString.l_suffix
+#print axioms Rv.Props.SrcRangeString.l_bytes
+#print axioms Rv.Props.SrcRangeString.rangeHeaderString_eq
+#print axioms Rv.Props.SrcRangeString.rangeHeaderString_total
+#print axioms Rv.Props.SrcRangeString.intToDec_natCast
+#print axioms Rv.Props.SrcRangeString.rangeString_suffix
+#print axioms Rv.Props.SrcRangeString.rangeString_from
+#print axioms Rv.Props.SrcRangeString.rangeString_fromTo
